@@ -1129,6 +1129,11 @@ class DiskRefsContainer(RefsContainer):
             a tag, this will be the SHA the ref refers to. If the ref may point
             to a tag, but no cached information is available, None is returned.
         """
+        if self.read_loose_ref(name) is not None:
+            # A loose ref overrides the packed one; the peeled value in
+            # packed-refs belongs to the packed value. Look at the loose file
+            # first: pack_refs writes packed-refs before it removes the file.
+            return None
         self.get_packed_refs()
         if (
             self._peeled_refs is None
@@ -1136,10 +1141,6 @@ class DiskRefsContainer(RefsContainer):
             or name not in self._packed_refs
         ):
             # No cache: no peeled refs were read, or this ref is loose
-            return None
-        if self.read_loose_ref(name) is not None:
-            # A loose ref overrides the packed one; the peeled value in
-            # packed-refs belongs to the packed value.
             return None
         if name in self._peeled_refs:
             return self._peeled_refs[name]
